@@ -11,7 +11,9 @@ A case: dict(cls="MC"|"BMP", init=None|[[name, value]...], ctl=dict(width, heigh
   op = ["call", method, [pos...], [[name, value]...], propagate]
      | ["with", [[name, value]...], [op...], var]   (var = null: `with c(...)`; var = k: a Context object kept
                                                      in variable k -- created once, re-entered each time)
-     | ["app", [pos...], [[name, value]...], [op...]]
+     | ["app", [pos...], [[name, value]...], [op...], intr]   (intr = null, or the name of the BaseException
+                                   the connection raises while the block's stop command is being sent)
+     | ["withcb", [[name, value]...], [op...], exc]   (a block whose before_close callback raises exc)
      | ["update", [[name, value]...]] | ["raise"] | ["try", [op...]]
   value = int | null | true/false | {"t": k}   (an opaque object; materialised per method/parameter here)
 A case may carry "discover": a machine description; then MachineController.discover_connections() is RUN FOR
@@ -41,6 +43,16 @@ TRACE = []
 
 class HarnessRaise(Exception):
     pass
+
+
+class HarnessInterrupt(BaseException):
+    """a BaseException that is not an Exception (like KeyboardInterrupt / SystemExit / GeneratorExit)"""
+
+
+CAUGHT = (Exception, KeyboardInterrupt, SystemExit, HarnessInterrupt)     # what a "try" op catches
+RAISABLE = {"Exception": HarnessRaise, "KeyboardInterrupt": KeyboardInterrupt, "SystemExit": SystemExit,
+            "HarnessInterrupt": HarnessInterrupt}
+INTERRUPT = {"next_stop": None}     # exception class the connection raises when the next stop signal is sent
 
 
 def enc(v):
@@ -143,6 +155,10 @@ class FakeConnection(object):
     def send_scp(self, buffer_size, x, y, p, cmd, arg1=0, arg2=0, arg3=0, data=b'', expected_args=3,
                  timeout=0.0):
         TRACE.append([self.ident, 0, enc(x), enc(y), enc(p), enc(cmd), enc(arg1), enc(arg2), enc(arg3)])
+        if INTERRUPT["next_stop"] is not None and cmd == int(consts.SCPCommands.signal) \
+                and isinstance(arg2, int) and (arg2 >> 16) & 0xff == int(consts.AppSignal.stop):
+            exc, INTERRUPT["next_stop"] = INTERRUPT["next_stop"], None
+            raise exc()          # e.g. Ctrl-C while waiting for the acknowledgement
         if MODE["machine"] is not None:
             return MODE["machine"].answer(self, x, y, int(cmd))
         return Reply(cmd if isinstance(cmd, int) else -1, arg2)
@@ -354,16 +370,20 @@ def run_case(case):
                 events.append(["call", m, TRACE[mark:], exc_name(err)])
                 if err is not None and propagate and len(TRACE) == mark:
                     raise err          # a rejection travels outward; failures after a send are caught here
-            elif kind == "with":
+            elif kind in ("with", "withcb"):
                 before = snapshot(c)
                 events.append(["stack", "enter", before[0], before[1]])
-                var = op[3] if len(op) > 3 else None
+                var = op[3] if len(op) > 3 and kind == "with" else None
                 if var is None:
                     ctx = c(**{k: materialise(cls, "__call__", k, v) for k, v in op[1]})
                 else:
                     if var not in kept:
                         kept[var] = c(**{k: materialise(cls, "__call__", k, v) for k, v in op[1]})
                     ctx = kept[var]
+                if kind == "withcb":
+                    def boom(exc=RAISABLE[op[3]]):
+                        raise exc()
+                    ctx.before_close(boom)
                 try:
                     with ctx:
                         run_ops(op[2])
@@ -390,11 +410,15 @@ def run_case(case):
                             raise
                         finally:
                             mark[0] = len(TRACE)
+                            if len(op) > 4 and op[4]:
+                                INTERRUPT["next_stop"] = RAISABLE[op[4]]
                 except BaseException as e2:
+                    INTERRUPT["next_stop"] = None
                     stop_exc = None if (body_exc and e2 is body_exc[0]) else e2
                     events.append(["stop", TRACE[mark[0]:], exc_name(stop_exc)])
                     raise
                 else:
+                    INTERRUPT["next_stop"] = None
                     events.append(["stop", TRACE[mark[0]:], None])
                 finally:
                     after = snapshot(c)
@@ -406,15 +430,16 @@ def run_case(case):
             elif kind == "try":
                 try:
                     run_ops(op[1])
-                except Exception:
+                except CAUGHT:
                     pass
             else:
                 raise ValueError("unknown op %r" % (kind,))
 
     raised = False
+    INTERRUPT["next_stop"] = None
     try:
         run_ops(case["ops"])
-    except Exception:
+    except CAUGHT:
         raised = True
     final = snapshot(c)
     res = dict(events=events, stack=final[0], merged=final[1], raised=raised)
